@@ -1,18 +1,8 @@
     // ---- property text (C11) for the bit/hex dumps: the text is a function of the stored bits
-    /// the address column of a dump line: `format!(" {:01$x} | ", addr, width)` (text left uninterpreted)
-    pub uninterp spec fn dump_addr_text(addr: int, width: int) -> Seq<char>;
-    /// the number of characters of `format!("{:x}", x)` (left uninterpreted)
-    pub uninterp spec fn hex_text_len(x: int) -> int;
-    /// R22 helpers: the two `format!` calls of format_dump, with the ASSUMED contract that their text is a
-    /// function of their arguments
-    #[verifier::external_body]
-    pub fn verif_dump_addr(addr: usize, width: usize) -> (r: String)
-        ensures r@ == dump_addr_text(addr as int, width as int)
-    { unimplemented!() }
-    #[verifier::external_body]
-    pub fn verif_hex_text_len(x: usize) -> (r: usize)
-        ensures r == hex_text_len(x as int)
-    { unimplemented!() }
+    /// the address column of a dump line: `format!(" {:01$x} | ", addr, width)`
+    pub open spec fn dump_addr_text(addr: int, width: int) -> Seq<char> { fmt_text(" {:01$x} | "@, addr, width) }
+    /// the number of bytes of `format!("{:x}", x)`
+    pub open spec fn hex_text_len(x: int) -> int { fmt_len("{:x}"@, x) }
 
     /// one digit of the dump: '.' only when the digit starts at or beyond the end of the data; otherwise the
     /// digit of its `db` bits, MSB first (bits beyond the end read as zero)
